@@ -28,7 +28,7 @@ def b(**kw):
 PROPERTIES = {
     "C01": {
         "runs": {
-            "quick": [H("HarnessC01a", b(K=3, CACHE=0)), H("HarnessC01a", b(K=3, CACHE=1)), H("HarnessC01a", b(K=3, CACHE=1, BF=3)), H("HarnessC01a", b(K=3, CACHE=0, FMT=2)), H("HarnessC01a", b(K=3, CACHE=1, FMT=1)), H("HarnessC01a", b(K=4, CACHE=0), sample_every=500), H("HarnessC01e", b(K=3)),
+            "quick": [H("HarnessC01a", b(K=3, CACHE=0)), H("HarnessC01a", b(K=3, CACHE=0, CMPSCALE=5)), H("HarnessC01a", b(K=3, CACHE=1)), H("HarnessC01a", b(K=3, CACHE=1, BF=3)), H("HarnessC01a", b(K=3, CACHE=0, FMT=2)), H("HarnessC01a", b(K=3, CACHE=1, FMT=1)), H("HarnessC01a", b(K=4, CACHE=0), sample_every=500), H("HarnessC01e", b(K=3)),
                       H("HarnessC01d", {"K": 2, "BF": 4, "SIGNED": 0, "KW": 5, "Lmax": 8}, sample_every=200)],
             "thorough": [H("HarnessC01e", b(K=4), sample_every=200), H("HarnessC01d", {"K": 2, "BF": 2, "SIGNED": 0, "KW": 5, "Lmax": 8}, sample_every=1000), H("HarnessC01d", {"K": 2, "BF": 3, "SIGNED": 0, "KW": 5, "Lmax": 8}, sample_every=500),
                          H("HarnessC01d", {"K": 2, "BF": 4, "SIGNED": 0, "KW": 5, "Lmax": 8}, sample_every=200), H("HarnessC01d", {"K": 2, "BF": 2, "SIGNED": 1, "KW": 4, "Lmax": 8}, sample_every=500), H("HarnessC01d", {"K": 2, "BF": 3, "SIGNED": 1, "KW": 4, "Lmax": 8}, sample_every=500), H("HarnessC01a", b(K=3, CACHE=0)), H("HarnessC01a", b(K=3, CACHE=1)), H("HarnessC01a", b(K=3, CACHE=0, BF=3)),
@@ -49,7 +49,9 @@ PROPERTIES = {
                       # a base that was never persisted (all nodes in memory and dirty at the first clone): the original and the clone of the clone are modified
                       H("HarnessC02a", b(N=3, K1=1, CACHE=0, PERSISTFIRST=0, HREQ=-1, TMASK=3), sample_every=100)] +
                      # the v1marshaler decode paths after a restart (the cache fills with decoded nodes)
-                     [H("HarnessC02a", b(N=3, K1=1, CACHE=1, PERSISTFIRST=1, FRESHCACHE=1, HREQ=-1, TMASK=12, FMT=f), sample_every=200) for f in (1, 2)],
+                     [H("HarnessC02a", b(N=3, K1=1, CACHE=1, PERSISTFIRST=1, FRESHCACHE=1, HREQ=-1, TMASK=12, FMT=f), sample_every=200) for f in (1, 2)] +
+                     # no persist between the captures (clone, cursor) and the later writes: the cursor is opened right after the last build insert
+                     [H("HarnessC02a", b(N=3, K1=1, CACHE=0, PERSISTFIRST=0, HREQ=-1, TMASK=3, NOROOT=1), sample_every=100)],
             "thorough": [H("HarnessC02a", b(N=3, K1=1, CACHE=c, PERSISTFIRST=p, HREQ=-1, TMASK=15), sample_every=500) for c in (0, 1, 2) for p in (0, 1)] +
                         [H("HarnessC02a", b(N=2, K1=2, CACHE=1, PERSISTFIRST=1, HREQ=-1, TMASK=15), sample_every=2000)],
         },
@@ -82,7 +84,9 @@ PROPERTIES = {
     },
     "C06": {
         "runs": {
-            "quick": [H("HarnessC06a", b(N=2, K=2, MODE=m)) for m in (0, 1, 2, 3, 4, 5, 6)] + [H("HarnessC06a", b(N=2, K=2, MODE=m, KEEP=1)) for m in (1, 3)] + [H("HarnessC06a", b(N=3, K=1, MODE=7))] + [H("HarnessC06a", b(N=17, K=1, MODE=1, Lmax=4, LRULER=1, CONCRETEKEYS=1), sample_every=10, max_steps=30000000)],
+            "quick": [H("HarnessC06a", b(N=2, K=2, MODE=m)) for m in (0, 1, 2, 3, 4, 5, 6)] + [H("HarnessC06a", b(N=2, K=2, MODE=m, KEEP=1)) for m in (1, 3)] +
+                     # pointer-typed values: equal under reflect.DeepEqual, never identical across two decodes
+                     [H("HarnessC06p", b(N=3, MODE=m)) for m in (0, 1)] + [H("HarnessC06a", b(N=3, K=1, MODE=7))] + [H("HarnessC06a", b(N=17, K=1, MODE=1, Lmax=4, LRULER=1, CONCRETEKEYS=1), sample_every=10, max_steps=30000000)],
             "thorough": [H("HarnessC06a", b(N=3, K=2, MODE=m), sample_every=300) for m in (0, 1, 2, 3)] + [H("HarnessC06a", b(N=3, K=3, MODE=m), sample_every=300) for m in (2, 3, 4, 5, 6)] + [H("HarnessC06a", b(N=3, K=2, MODE=7), sample_every=300), H("HarnessC06a", b(N=4, K=1, MODE=7), sample_every=300)] +
                         [H("HarnessC06a", b(N=4, K=1, MODE=m), sample_every=300) for m in (0, 1)],
         },
@@ -147,13 +151,15 @@ PROPERTIES = {
             "thorough": [H("HarnessC04b", b(N=5, K=1, NOPS=2, HREQ=2), sample_every=500), H("HarnessC04a", b(K=4, NOPS=3), sample_every=200), H("HarnessC04a", b(K=3, NOPS=3, BF=3)), H("HarnessC04a", b(K=5, NOPS=2), sample_every=2000),
                          H("HarnessC04b", b(N=33, K=1, NOPS=2, Lmax=5, LRULER=1, CONCRETEKEYS=1), sample_every=20, max_steps=60000000), H("HarnessC12a", b(N=3, PRE=0, F=5, OPMASK=3, NOPROBE=1), sample_every=500), H("HarnessC12a", b(N=15, PRE=0, F=12, OPMASK=3, NOPROBE=1, CONCRETEKEYS=1, LRULER=1, Lmax=3), sample_every=200)],
         },
-        "must_reach": ["C09.size-after-failed-operation", "C09.size-after-operation-under-fault", "C09.layers", "C09.ranges", "C09.no-empty-node", "C09.size"],
+        "must_reach": ["C09.size-after-failed-operation", "C09.shape-after-failed-operation", "C09.size-after-operation-under-fault", "C09.layers", "C09.ranges", "C09.no-empty-node", "C09.size"],
         "bounds_statement": "persisted version after every history of <= K operations (incl. going back to the first persisted version and restarting with an empty cache), and after operations that failed or succeeded under an injected fault; every reachable node decoded by an independent reader",
         "assumptions": COMMON_ASSUMPTIONS,
     },
     "C10": {
         "runs": {
-            "quick": [H("HarnessC10a", b(N=3, S=2, MODE=m)) for m in (0, 1, 3)] + [H("HarnessC10a", b(N=2, S=3, MODE=m)) for m in (2, 4)] + [H("HarnessC10b", b(N=3, MODE=m)) for m in (0, 1, 2, 3)] +
+            "quick": [H("HarnessC10a", b(N=3, S=2, MODE=m)) for m in (0, 1, 3, 5, 6)] + [H("HarnessC10b", b(N=3, MODE=m)) for m in (5, 6)] +
+                     # CMPSCALE: the key type's Order returns -3/0/+3 (only the sign of a comparison is specified)
+                     [H("HarnessC10a", b(N=3, S=2, MODE=0, CMPSCALE=3)), H("HarnessC10b", b(N=3, MODE=0, CMPSCALE=3))] + [H("HarnessC10a", b(N=2, S=3, MODE=m)) for m in (2, 4)] + [H("HarnessC10b", b(N=3, MODE=m)) for m in (0, 1, 2, 3)] +
                      # height-2 shapes with adjacent same-layer keys (nil links inside interior nodes)
                      [H(h, b(N=5, S=3, MODE=m, LPAT=p), sample_every=5) for h in ("HarnessC10a", "HarnessC10b") for m in (0, 1) for p in (66, 58, 147)] + [H("HarnessC10a", b(N=17, S=3, MODE=1, Lmax=4, LRULER=1, CONCRETEKEYS=1), sample_every=20, max_steps=30000000)],
             # (N=5,S=3 is 18225 paths and ran clean once, but takes over an hour of wall time on a loaded machine: not registered)
@@ -163,7 +169,7 @@ PROPERTIES = {
                         [H("HarnessC10a", b(N=4, S=3, MODE=0, BF=3)), H("HarnessC10b", b(N=4, MODE=1, BF=3))],
         },
         "must_reach": ["C10.start.entry-iff-inside", "C10.step.key", "C10.step.entry-iff-inside", "C10.seek.count", "C10.seek.entries-correct-ascending-ge-probe"],
-        "bounds_statement": "trees of N ascending entries (all layer assignments; in memory, persisted+reloaded), never-populated and emptied trees; cursor placed by Min / Max / Ceil(symbolic probe), then S symbolic Forward/Backward steps with Get after each; SeekIter from a symbolic probe with ErrIterDone at every position",
+        "bounds_statement": "trees of N ascending entries (all layer assignments; in memory, persisted+reloaded, persisted with the in-process handle kept, re-loaded through the writer's cache), never-populated and emptied trees; cursor placed by Min / Max / Ceil(symbolic probe), then S symbolic Forward/Backward steps with Get after each; SeekIter from a symbolic probe with ErrIterDone at every position",
         "assumptions": COMMON_ASSUMPTIONS,
     },
     "C12": {
@@ -173,20 +179,22 @@ PROPERTIES = {
                       H("HarnessC12a", b(N=5, PRE=1, F=4, OPMASK=3, NOPROBE=1, CONCRETEKEYS=1, LRULER=1, **{"SEQ.pre": 0}), sample_every=500),
                       H("HarnessC12a", b(N=7, PRE=0, F=7, OPMASK=3, NOPROBE=1, CONCRETEKEYS=1, LRULER=1), sample_every=50),
                       # mixed residency on a height-3 tree: one successful symbolic insert/update after the re-load (its path is in memory, the rest still in the store), then a delete under every load/compare fault position
-                      H("HarnessC12a", b(N=7, PRE=1, F=7, OPMASK=2, NOPROBE=1, CONCRETEKEYS=1, LRULER=1, **{"SEQ.pre": 0}), sample_every=500)],
+                      H("HarnessC12a", b(N=7, PRE=1, F=7, OPMASK=2, NOPROBE=1, CONCRETEKEYS=1, LRULER=1, **{"SEQ.pre": 0}), sample_every=500),
+                      # cursor Min / Max (operations 7, 8) under every load fault, retried on the same cursor, on the height-3 tree
+                      H("HarnessC12a", b(N=7, PRE=0, F=5, OPMASK=384, NOPROBE=1, CONCRETEKEYS=1, LRULER=1), sample_every=20)],
             "thorough": [H("HarnessC12a", b(N=3, PRE=0, F=5), sample_every=1000), H("HarnessC12a", b(N=2, PRE=1, F=3), sample_every=1000), H("HarnessC12a", b(N=3, PRE=1, F=4), sample_every=3000)],
         },
         "must_reach": ["C12.contents-unchanged", "C12.size-unchanged", "C12.retry-result", "C12.contents-after-retry"],
-        "bounds_statement": "tree of N ascending entries persisted and re-loaded (every node behind a Load), PRE successful modifications (dirty in-memory path above persisted children), then one of Insert/Delete/Get/Iter/Clone/Cursor(Ceil,Forward,Backward)/DiffIter with a fault at the n-th Persist.Load or the n-th KeyCompare call of that operation (n < F); after an error: Size, Height, full Iter, Get(probe) against the pre-operation model, then the same call retried without the fault",
+        "bounds_statement": "tree of N ascending entries persisted and re-loaded (every node behind a Load), PRE successful modifications (dirty in-memory path above persisted children), then one of Insert/Delete/Get/Iter/Clone/Cursor(Ceil,Forward,Backward)/DiffIter/Cursor.Min/Cursor.Max with a fault at the n-th Persist.Load or the n-th KeyCompare call of that operation (n < F); after an error: Size, Height, full Iter, Get(probe) against the pre-operation model, then the same call retried without the fault",
         "outside": ["faults in Marshal (only reached from MakeRoot with this key type)", "two simultaneous faults", "panics raised by validateNode when KeyCompare fails (the statement is about calls that return an error)"],
         "assumptions": COMMON_ASSUMPTIONS,
     },
     "C13": {
         "runs": {
-            "quick": [H("HarnessC13a", b(N=3, B=1, RELOAD=1))] + [H("HarnessC13a", b(N=20, B=1, RELOAD=1, ASC=1, Lmax=4, LRULER=1, CONCRETEKEYS=1), sample_every=10, max_steps=30000000)],
+            "quick": [H("HarnessC13a", b(N=3, B=1, RELOAD=1)), H("HarnessC13a", b(N=3, B=1, RELOAD=0)), H("HarnessC13a", b(N=2, B=2, RELOAD=0)), H("HarnessC13a", b(N=2, B=2, RELOAD=1))] + [H("HarnessC13a", b(N=20, B=1, RELOAD=1, ASC=1, Lmax=4, LRULER=1, CONCRETEKEYS=1), sample_every=10, max_steps=30000000)],
             "thorough": [H("HarnessC13a", b(N=3, B=2, RELOAD=1), sample_every=200), H("HarnessC13a", b(N=3, B=1, RELOAD=0)), H("HarnessC13a", b(N=4, B=1, RELOAD=1), sample_every=200)],
         },
-        "must_reach": ["C13.written-is-reachable", "C13.rewrite-only-in-range", "C13.write-count", "C13.clean-implies-unchanged", "C13.clone-clean-implies-unchanged"],
+        "must_reach": ["C13.unmodified-clone-no-writes", "C13.written-is-reachable", "C13.rewrite-only-in-range", "C13.write-count", "C13.clean-implies-unchanged", "C13.clone-clean-implies-unchanged"],
         "bounds_statement": "V0 = N arbitrary inserts, persisted (re-loaded or not), then B symbolic modifications, then the second persist's Store log",
         "assumptions": COMMON_ASSUMPTIONS,
     },
